@@ -205,3 +205,5 @@ Example c18_explore_fuel_needed :
   fst (sg_search os [[CSet 7%N]; [CGet]]) = Some [(0, 0); (0, 0); (0, 0); (1, 0); (1, 0)] /\
   g_raced (sg_run os [[CSet 7%N]; [CGet]] [(0, 0); (0, 0); (0, 0); (1, 0); (1, 0)]) = true.
 Proof. vm_compute. repeat split; reflexivity. Qed.
+
+(* Note after the second read-only review of these pins (selftest/audit/REVIEW-2-2026-10-02.md): c18_search_sound and c18_search_complete are the two halves of c18_search_decides. *)
